@@ -811,7 +811,9 @@ func (c *xClient) SendRaw(ctx context.Context, r *protocol.Message) (map[string]
 		for retries >= 0 {
 			retries--
 			if client != nil {
-				m, payload, err := c.wrapSendRaw(ctx, client, r)
+				var m map[string]string
+				var payload []byte
+				m, payload, err = c.wrapSendRaw(ctx, client, r)
 				if err == nil {
 					return m, payload, nil
 				}
@@ -838,7 +840,9 @@ func (c *xClient) SendRaw(ctx context.Context, r *protocol.Message) (map[string]
 		for retries >= 0 {
 			retries--
 			if client != nil {
-				m, payload, err := c.wrapSendRaw(ctx, client, r)
+				var m map[string]string
+				var payload []byte
+				m, payload, err = c.wrapSendRaw(ctx, client, r)
 				if err == nil {
 					return m, payload, nil
 				}
@@ -870,7 +874,7 @@ func (c *xClient) SendRaw(ctx context.Context, r *protocol.Message) (map[string]
 			}
 		}
 
-		return m, payload, nil
+		return m, payload, err
 	}
 }
 
